@@ -293,9 +293,9 @@ Section FullCall.
 
   (* static conditions on a signature: out parameters after in parameters, at most 254 parameters, every type
      nested within k and of finite depth, parameter lists short and shallow enough for the decoders' fuel *)
-  Definition sig_ok (f : fsig) : Prop :=
-    ins_first (fs_args f) = true /\ sig_args_ok e k n f /\ ret_ok e k n f /\
-    fuel_static e k n (in_fields f) /\ fuel_static e k n (rsp_fields f).
+  Definition sig_fine (f : fsig) : Prop :=
+    sig_args_ok e k n f /\ ret_ok e k n f /\ fuel_static e k n (in_fields f) /\ fuel_static e k n (rsp_fields f).
+  Definition sig_ok (f : fsig) : Prop := ins_first (fs_args f) = true /\ sig_fine f.
 
   (* what the implementation receives / what the caller gets: the values, normalised *)
   Definition ins_seen (f : fsig) (args : list val) : list val := norm_fields e (ins_of f args) (in_fields f).
@@ -313,7 +313,7 @@ Section FullCall.
     (COk (ret_of f (results_seen f ret outs)) (outs_from f (results_seen f ret outs)) (maps_after o rc rs),
      core_events_at Pc Ps f (ins_seen f args) o true).
   Proof.
-    cbn zeta. intros Hf (Hif & Hargs & Hret & Hfi & Hfr) Hty Hfresh Himpl Hrty Hwq Hwp.
+    cbn zeta. intros Hf (Hif & (Hargs & Hret & Hfi & Hfr)) Hty Hfresh Himpl Hrty Hwq Hwp.
     apply (transparent_ok_decoded e sid_req sid_rsp max_pkt impl Pc Ps i f args (ins_seen f args) o id sv t ret outs rc rs
              (results_seen f ret outs)); try assumption.
     - now apply (args_decode_full e k n Hwf Hk).
@@ -328,7 +328,7 @@ Section FullCall.
     call e sid_req sid_rsp max_pkt impl (filters_of inv_res Pc) (filters_of disp_res Ps) i f args o false id sv t =
     (err_seen c m, core_events_at Pc Ps f (ins_seen f args) o true).
   Proof.
-    cbn zeta. intros Hf (Hif & Hargs & Hret & Hfi & Hfr) Hty Himpl Hc Hwq Hwp.
+    cbn zeta. intros Hf (Hif & (Hargs & Hret & Hfi & Hfr)) Hty Himpl Hc Hwq Hwp.
     apply (transparent_err_decoded e sid_req sid_rsp max_pkt impl Pc Ps i f args (ins_seen f args)); try assumption.
     now apply (args_decode_full e k n Hwf Hk).
   Qed.
@@ -340,8 +340,178 @@ Section FullCall.
     call e sid_req sid_rsp max_pkt impl (filters_of inv_res Pc) (filters_of disp_res Ps) i f args o true id sv t =
     (CSent, core_events_at Pc Ps f (ins_seen f args) o false).
   Proof.
-    cbn zeta. intros Hf (Hif & Hargs & Hret & Hfi & Hfr) Hty Hwq.
+    cbn zeta. intros Hf (Hif & (Hargs & Hret & Hfi & Hfr)) Hty Hwq.
     apply (oneway_decoded e sid_req sid_rsp max_pkt impl Pc Ps i f args (ins_seen f args)); try assumption.
     now apply (args_decode_full e k n Hwf Hk).
   Qed.
 End FullCall.
+
+(* ---------- the packets: RequestPacket / ResponsePacket survive packet codec, frame and receive loop ---------- *)
+From TarsV Require Import Gen.Schemas Frame.FramingProofs.
+
+Definition str_fine (s : bytes) : Prop := N.of_nat (length s) < 4294967296.
+Definition smap_fine (m : smap) : Prop :=
+  N.of_nat (length m) < 2147483648 /\ Forall (fun kv => str_fine (fst kv) /\ str_fine (snd kv)) m.
+(* field ranges of the Go struct types: int16 version, int8 packet type, int32 ids, byte vector within an int32 count *)
+Definition req_fine (q : reqpkt) : Prop :=
+  fits 16 (q_ver q) = true /\ fits 8 (q_ptype q) = true /\ fits 32 (q_mtype q) = true /\ fits 32 (q_id q) = true /\
+  str_fine (q_servant q) /\ str_fine (q_func q) /\ N.of_nat (length (q_buf q)) < 2147483648 /\
+  fits 32 (q_timeout q) = true /\ smap_fine (q_ctx q) /\ smap_fine (q_status q).
+Definition rsp_fine (p : rsppkt) : Prop :=
+  fits 16 (p_ver p) = true /\ fits 8 (p_ptype p) = true /\ fits 32 (p_id p) = true /\ fits 32 (p_mtype p) = true /\
+  fits 32 (p_ret p) = true /\ N.of_nat (length (p_buf p)) < 2147483648 /\ smap_fine (p_status p) /\
+  str_fine (p_desc p) /\ smap_fine (p_ctx p).
+
+Lemma smap_of_vmap m : smap_of (map (fun kv : bytes * bytes => (VStr (fst kv), VStr (snd kv))) m) = Some m.
+Proof. induction m as [|[a b] m IH]; cbn [map smap_of fst snd]; [reflexivity|]. now rewrite IH. Qed.
+Lemma val_req_req_val q : val_req (req_val q) = Some q.
+Proof. destruct q. unfold req_val, val_req, vmap. cbn -[smap_of map]. now rewrite !smap_of_vmap. Qed.
+Lemma val_rsp_rsp_val p : val_rsp (rsp_val p) = Some p.
+Proof. destruct p. unfold rsp_val, val_rsp, vmap. cbn -[smap_of map]. now rewrite !smap_of_vmap. Qed.
+
+Lemma smap_typed e m : smap_fine m -> has_type e (TMap TStr TStr) (vmap m).
+Proof.
+  intros [Hl Hall]. unfold vmap. apply HT_map; [now rewrite map_length|].
+  apply Forall_map. eapply Forall_impl; [|exact Hall]. intros [a b] [Ha Hb]. cbn [fst snd] in *.
+  split; apply HT_scalar; try reflexivity; assumption.
+Qed.
+Lemma norm_smap e req d m : norm e (TMap TStr TStr) req d (vmap m) = vmap m.
+Proof.
+  unfold vmap. rewrite norm_map. f_equal. induction m as [|[a b] m IH]; cbn [map norm_entries fst snd]; [reflexivity|].
+  now rewrite IH.
+Qed.
+
+Lemma deliver_fits max body : 4 + N.of_nat (length body) <= max -> max < 4294967296 -> deliver max body = Some body.
+Proof.
+  intros H1 H2. unfold deliver.
+  assert (Hr : recv_loop max [] [frame body] = ([frame body], Some [])).
+  { apply C07_reassembly; [|reflexivity]. constructor; [|constructor].
+    change (frame body) with (mk_packet body). apply valid_mk_packet; lia. }
+  rewrite Hr. reflexivity.
+Qed.
+
+Section Packets.
+  Variable e : env.
+  Variable k : nat.
+  Hypothesis Hwf : wf_schema k e.
+  Hypothesis Hk : (k <= 40)%nat.
+  Variable sid_req sid_rsp : nat.
+  Hypothesis Hreq : fields_of e sid_req = schema_requestf_RequestPacket.
+  Hypothesis Hrsp : fields_of e sid_rsp = schema_requestf_ResponsePacket.
+  Variable max_pkt : N.
+  Hypothesis Hmax : max_pkt < 4294967296.
+
+  Lemma sc e' t v : scalar_ty t = true -> sc_typed t v -> has_type e' t v.
+  Proof. apply HT_scalar. Qed.
+
+  Lemma req_codec q : req_fine q -> decode e sid_req (encode e sid_req (req_val q)) = DOk (req_val q) [].
+  Proof.
+    intros (H1 & H2 & H3 & H4 & H5 & H6 & H7 & H8 & H9 & H10).
+    assert (Hty : has_type e (TStruct sid_req) (req_val q)).
+    { unfold req_val. apply HT_struct. rewrite Hreq. unfold schema_requestf_RequestPacket.
+      repeat (apply Forall2_cons; [cbn [fty]; first [apply sc; [reflexivity|assumption] | now apply smap_typed | now apply HT_bytes]|]).
+      apply Forall2_nil. }
+    unfold req_val in *. rewrite (roundtrip_struct_static e k 3 sid_req _ Hwf ltac:(lia)); try assumption.
+    - f_equal. unfold norm_struct. rewrite norm_str, Hreq. unfold schema_requestf_RequestPacket.
+      cbn [norm_fields fty freq fdef]. rewrite !norm_smap. reflexivity.
+    - cbn [tfin]. rewrite Hreq. reflexivity.
+    - cbn [tneed]. rewrite Hreq. cbn. lia.
+  Qed.
+
+  Theorem wire_ok_req_full q : req_fine q -> 4 + N.of_nat (length (encode e sid_req (req_val q))) <= max_pkt ->
+    wire_ok_req e sid_req max_pkt q.
+  Proof.
+    intros Hq Hfit. unfold wire_ok_req, wire_req. rewrite (deliver_fits max_pkt _ Hfit Hmax), (req_codec q Hq).
+    apply val_req_req_val.
+  Qed.
+
+  Lemma norm_opt_str s : norm e TStr false None (VStr s) = VStr s.
+  Proof. destruct s; reflexivity. Qed.
+
+  Lemma rsp_codec p : rsp_fine p -> decode e sid_rsp (encode e sid_rsp (rsp_val p)) = DOk (rsp_val p) [].
+  Proof.
+    intros (H1 & H2 & H3 & H4 & H5 & H6 & H7 & H8 & H9).
+    assert (Hty : has_type e (TStruct sid_rsp) (rsp_val p)).
+    { unfold rsp_val. apply HT_struct. rewrite Hrsp. unfold schema_requestf_ResponsePacket.
+      repeat (apply Forall2_cons; [cbn [fty]; first [apply sc; [reflexivity|assumption] | now apply smap_typed | now apply HT_bytes]|]).
+      apply Forall2_nil. }
+    unfold rsp_val in *. rewrite (roundtrip_struct_static e k 3 sid_rsp _ Hwf ltac:(lia)); try assumption.
+    - f_equal. unfold norm_struct. rewrite norm_str, Hrsp. unfold schema_requestf_ResponsePacket.
+      cbn [norm_fields fty freq fdef]. rewrite !norm_smap, norm_opt_str. reflexivity.
+    - cbn [tfin]. rewrite Hrsp. reflexivity.
+    - cbn [tneed]. rewrite Hrsp. cbn. lia.
+  Qed.
+
+  Theorem wire_ok_rsp_full p : rsp_fine p -> 4 + N.of_nat (length (encode e sid_rsp (rsp_val p))) <= max_pkt ->
+    wire_ok_rsp e sid_rsp max_pkt p.
+  Proof.
+    intros Hp Hfit. unfold wire_ok_rsp, wire_rsp. rewrite (deliver_fits max_pkt _ Hfit Hmax), (rsp_codec p Hp).
+    apply val_rsp_rsp_val.
+  Qed.
+
+  (* a packet whose fields are in range and whose frame fits maxPackageLength *)
+  Definition req_sendable (q : reqpkt) : Prop := req_fine q /\ 4 + N.of_nat (length (encode e sid_req (req_val q))) <= max_pkt.
+  Definition rsp_sendable (p : rsppkt) : Prop := rsp_fine p /\ 4 + N.of_nat (length (encode e sid_rsp (rsp_val p))) <= max_pkt.
+
+  (* ---------- C01, value clause, no codec hypothesis left ---------- *)
+  Variable n : nat.
+  Variable impl : bytes -> list val -> smap -> smap -> impl_res.
+  Lemma Hk64 : (k <= 64)%nat. Proof. lia. Qed.
+
+  Theorem transparent_ok_closed (Pc Ps : pfilters ev unit) i f args o id sv t ret outs rc rs :
+    let q := mkreq e f args o false id sv t in
+    find_fn i (fs_name f) = Some f -> sig_ok e k n f ->
+    args_typed e (fs_args f) args -> outs_fresh e f args ->
+    impl (fs_name f) (ins_seen e f args) (ctx_of o) (status_of o) = IOk ret outs rc rs ->
+    results_typed e f (results ret outs) ->
+    req_sendable q -> rsp_sendable (ok_reply e f q ret outs rc rs) ->
+    call e sid_req sid_rsp max_pkt impl (filters_of inv_res Pc) (filters_of disp_res Ps) i f args o false id sv t =
+    (COk (ret_of f (results_seen e f ret outs)) (outs_from f (results_seen e f ret outs)) (maps_after o rc rs),
+     core_events_at Pc Ps f (ins_seen e f args) o true).
+  Proof.
+    cbn zeta. intros Hf Hsig Hty Hfresh Himpl Hrty [Hq Hqf] [Hp Hpf].
+    apply (transparent_ok_full e k n Hwf Hk64); try assumption.
+    - now apply wire_ok_req_full.
+    - now apply wire_ok_rsp_full.
+  Qed.
+
+  Theorem transparent_err_closed (Pc Ps : pfilters ev unit) i f args o id sv t c m :
+    let q := mkreq e f args o false id sv t in
+    find_fn i (fs_name f) = Some f -> sig_ok e k n f -> args_typed e (fs_args f) args ->
+    impl (fs_name f) (ins_seen e f args) (ctx_of o) (status_of o) = IFail c m -> c <> 0%Z ->
+    req_sendable q -> rsp_sendable (err_reply q c m) ->
+    call e sid_req sid_rsp max_pkt impl (filters_of inv_res Pc) (filters_of disp_res Ps) i f args o false id sv t =
+    (err_seen c m, core_events_at Pc Ps f (ins_seen e f args) o true).
+  Proof.
+    cbn zeta. intros Hf Hsig Hty Himpl Hc [Hq Hqf] [Hp Hpf].
+    apply (transparent_err_full e k n Hwf Hk64); try assumption.
+    - now apply wire_ok_req_full.
+    - now apply wire_ok_rsp_full.
+  Qed.
+
+  Theorem oneway_closed (Pc Ps : pfilters ev unit) i f args o id sv t :
+    let q := mkreq e f args o true id sv t in
+    find_fn i (fs_name f) = Some f -> sig_ok e k n f -> args_typed e (fs_args f) args -> req_sendable q ->
+    call e sid_req sid_rsp max_pkt impl (filters_of inv_res Pc) (filters_of disp_res Ps) i f args o true id sv t =
+    (CSent, core_events_at Pc Ps f (ins_seen e f args) o false).
+  Proof.
+    cbn zeta. intros Hf Hsig Hty [Hq Hqf].
+    apply (oneway_full e k n Hwf Hk64); try assumption. now apply wire_ok_req_full.
+  Qed.
+End Packets.
+
+(* ---------- the value clause at full strength (every signature, any content of the caller's out variables, exact
+   values): kept as a statement; refuted on the model and on the code by a pre-filled out variable
+   (Rpc/EndToEndExamples.v, prefilled_out_refutes) ---------- *)
+Definition transparent_ok_statement : Prop :=
+  forall e k n sid_req sid_rsp max impl (Pc Ps : pfilters ev unit) i f args o id sv t ret outs rc rs,
+    wf_schema k e -> (k <= 40)%nat ->
+    fields_of e sid_req = schema_requestf_RequestPacket -> fields_of e sid_rsp = schema_requestf_ResponsePacket ->
+    max < 4294967296 ->
+    let q := mkreq e f args o false id sv t in
+    find_fn i (fs_name f) = Some f -> sig_fine e k n f -> args_typed e (fs_args f) args ->
+    impl (fs_name f) (ins_of f args) (ctx_of o) (status_of o) = IOk ret outs rc rs -> ret_shape f ret ->
+    results_typed e f (results ret outs) ->
+    req_sendable e sid_req max q -> rsp_sendable e sid_rsp max (ok_reply e f q ret outs rc rs) ->
+    fst (call e sid_req sid_rsp max impl (filters_of inv_res Pc) (filters_of disp_res Ps) i f args o false id sv t)
+    = COk ret outs (maps_after o rc rs).
